@@ -630,9 +630,10 @@ func (c *Ctx) mathApp(st *State, name string, ts []T) T {
 				// x^p * x^(-p) = 1 for x > 0
 				ax(implies(and(gt(x, real0), eq(prev[1], app(SReal, "-", ts[1]))), eq(app(SReal, "*", pt, t), real1)))
 			}
-			same := eq(prev[1], ts[1])
-			ax(implies(and(same, gt(ts[1], real0), ge(px, real0), le(px, x)), le(pt, t)))
-			ax(implies(and(same, gt(ts[1], real0), ge(x, real0), le(x, px)), le(t, pt)))
+			if prev[1].S == ts[1].S {
+				ax(implies(and(gt(ts[1], real0), ge(px, real0), le(px, x)), le(pt, t)))
+				ax(implies(and(gt(ts[1], real0), ge(x, real0), le(x, px)), le(t, pt)))
+			}
 		}
 	}
 	c.mathApps[name] = append(c.mathApps[name], ts)
